@@ -2,6 +2,7 @@ CHECKS["C15"] = dict(
     module="core",
     pkg="internal/verif/c15",
     packages=[("internal/verif/c15", "harness/core/c15")],
+    hooks=CESIUM_HOOKS,
     level="exploration",
     rule=("rapid draws a cluster size n in {1,2,3}, name validation on (4/5) or off, and a history of 1-12 batched requests, each "
           "issued through a generated gateway node, inside db.WithTx (3/4, as the API layer does) or with a nil transaction: "
